@@ -3,6 +3,7 @@ import StepModel.ExpParseLemmas
 import StepModel.ExpDeclSynLemmas
 import StepModel.ExpEntitySynLemmas
 import StepModel.ExpStmtSynLemmas
+import StepModel.ExpTypeDeclSynLemmas
 /-!
 # C07 — pretty-printed EXPRESS is valid, equivalent to its source and stable
 
@@ -458,6 +459,29 @@ a statement (END_FUNCTION, END_IF, ELSE, …) -/
 theorem C07_statements_roundtrip (s : Stmt) (h : wfStmts s) (r : List DTok) (hr : startsStmt r = false) :
     ∃ n0, ∀ n, n0 ≤ n → parseStmts n (stmtsToks s ++ r) = some (s, r) :=
   stmts_roundtrip s h r hr
+
+/-! ### TYPE declarations, CONSTANT blocks, algorithm bodies -/
+
+/-- **TYPE declarations: print/parse round trip at token level** — underlying type (every form of `C07_type_roundtrip`),
+`ENUMERATION OF ( … )`, `SELECT ( … )` (items in source order), WHERE rules with and without labels -/
+theorem C07_typedecl_roundtrip (d : TypeDeclS) (h : wfTypeDecl d) (r : List DTok) :
+    ∃ n0, ∀ n, n0 ≤ n → parseTypeDecl n (typeDeclToks d ++ r) = some (d, r) :=
+  typeDecl_rt d h r
+
+/-- **CONSTANT block**: printed exactly when the scope has constants, read back as the same constants (name, type, initialiser) -/
+theorem C07_constants_roundtrip (cs : List ConstDeclS) (hwf : ∀ c ∈ cs, wfTy c.ty) (r : List DTok)
+    (hr : ∀ r', r ≠ .kw "CONSTANT" :: r') :
+    (∃ n0, ∀ n, n0 ≤ n → parseConsts n (constsToks cs ++ r) = some (cs, r)) ∧ (constsToks cs = [] ↔ cs = []) := by
+  refine ⟨consts_rt cs hwf r hr, ?_⟩
+  unfold constsToks
+  by_cases h : cs = [] <;> simp [h]
+
+/-- **Algorithm body** (what `SCOPElocals_out` and `STMTlist_out` print between the header and END_FUNCTION / END_PROCEDURE /
+the WHERE of a rule): the LOCAL block, if any, and the statement list are read back unchanged -/
+theorem C07_algorithm_body_roundtrip (ls : List Local) (b : Stmt) (hn : ∀ l ∈ ls, l.name.length ≠ 0) (hwf : ∀ l ∈ ls, wfTy l.ty)
+    (hb : wfStmts b) (r : List DTok) (hr : startsStmt r = false) (hr2 : ∀ r', r ≠ .kw "LOCAL" :: r') :
+    ∃ n0, ∀ n, n0 ≤ n → parseAlgBody n (algBodyToks ls b ++ r) = some ((ls, b), r) :=
+  algBody_rt ls b hn hwf hb r hr hr2
 
 /-! ## layout layer -/
 
